@@ -1,7 +1,7 @@
 import sys,glob
 from prog import *
 from model import *
-d=sorted(glob.glob('/verif/.cache/facts/*/'))[-1]
+import os; d=sorted(glob.glob('/verif/.cache/facts/*/'), key=os.path.getmtime)[-1]
 P=Program(d)
 sel=sys.argv[1] if len(sys.argv)>1 else ''
 for cn,e in P.all_entries():
